@@ -8,6 +8,7 @@ offline, DESIGN K1).  Harness list, bounds and unwind values come from contracts
 import json
 import os
 import re
+import resource
 import subprocess
 import sys
 import time
@@ -59,7 +60,10 @@ def run_unit(u, unit_dir, repo_root, scratch, tier):
         cmds.append(' '.join(cmd))
         th = time.time()
         try:
-            p = subprocess.run(cmd, cwd=crate, env=env, capture_output=True, text=True, timeout=h.get('timeout_s', 1500))
+            def _lim():
+                # no swap on this machine: cap the solver's address space so a blow-up ends in UNDECIDED, not OOM
+                resource.setrlimit(resource.RLIMIT_AS, (int(h.get('mem_gb', 20)) << 30, int(h.get('mem_gb', 20)) << 30))
+            p = subprocess.run(cmd, cwd=crate, env=env, capture_output=True, text=True, timeout=h.get('timeout_s', 900), preexec_fn=_lim)
             out = p.stdout + p.stderr
         except subprocess.TimeoutExpired:
             out = 'TIMEOUT'
